@@ -73,6 +73,8 @@ def attribute(case, clauses, finding):
         return False
     if not clauses or not all(cl.startswith('internal-error') for cl in clauses):
         return False
+    if a.get('chain') and list(a['chain']) != list(case.get('chain', [])):
+        return False
     return case['exc'] == a.get('exc') and case['where'] == a.get('where') and (not a.get('stmt') or a['stmt'] == case['stmt'])
 
 
